@@ -7,7 +7,7 @@
    S3  [aux_graph] is the composition of these steps ([aux_graph_eq], [edge_add_eq]); hence [aux_graph_inv]
    S4  [aux_graph_ns_wf], [aux_graph_acyclic], [aux_graph_sep_edge] (the separation edge of every pair of
        neighbours of a band is present), and [aux_phase2_feasible]: every layering returned by
-       phase2 NetworkSimplex on the auxiliary graph is [ns_feasible] (via [exec_network_simplex_feasible_all])
+       assign_layers NetworkSimplex on the auxiliary graph is [ns_feasible] (via [exec_network_simplex_feasible_all])
    S5  [ns_positioner_no_overlap_unconditional], [ns_positioner_nonneg], [ns_positioner_leftmost_zero],
        [phase4_ns_no_overlap]
    S6  the example [sx_g] of SinkColoringProofs.v
@@ -620,7 +620,7 @@ Proof.
 Qed.
 
 Theorem aux_phase2_feasible : forall th f s g a, nsp_wf g ->
-  phase2 NetworkSimplex (ns_params th g) (aux_graph f s g) = Ok a -> ns_feasible s g a.
+  assign_layers NetworkSimplex (ns_params th g) (aux_graph f s g) = Ok a -> ns_feasible s g a.
 Proof.
   intros th f s g a W H l k p n Hl Hp Hn.
   assert (Hne : g_N g <> []).
@@ -629,16 +629,15 @@ Proof.
     rewrite E0 in Hin. destruct Hin. }
   destruct (aux_graph_sep_edge f s g l k p n W Hne Hl Hp Hn) as (e & He & A & B & D).
   pose proof (aux_graph_ns_wf f s g W Hne) as Wa. pose proof (aux_graph_acyclic f s g W Hne) as Ac.
-  unfold phase2 in H.
-  destruct (Nat.eqb (length (g_N (aux_graph f s g))) 1) eqn:E1; cbn [bind] in H.
+  unfold assign_layers in H.
+  destruct (Nat.eqb (length (g_N (aux_graph f s g))) 1) eqn:E1.
   - (* a single auxiliary node: there is no separation edge *)
     exfalso. apply Nat.eqb_eq in E1.
     destruct Wa as [[_ Ein _] _ Nl]. destruct (Ein e He) as [F T]. specialize (Nl e He).
     destruct (g_N (aux_graph f s g)) as [|x [|y t]]; cbn [length] in E1; try discriminate.
     destruct F as [F|[]], T as [T|[]]. congruence.
-  - destruct (exec_network_simplex (ns_params th g) (aux_graph f s g)) as [a1|err] eqn:E2; cbn [bind] in H; [|discriminate].
+  - rename H into E2. rename a into a1.
     destruct (exec_network_simplex_feasible_all _ _ _ Wa Ac E2) as (Hf & _ & Fr).
-    rewrite !(init_layer_slices_layer a1 a _ H).
     assert (He1 : In e (g_E a1)) by (rewrite (nf_E _ _ Fr); exact He).
     specialize (Hf e He1). unfold slack in Hf.
     destruct (nf_edge _ _ Fr e) as (T1 & T2 & T3 & _). rewrite T1, T2, T3, A, B, D in Hf. lia.
@@ -675,7 +674,7 @@ Theorem ns_positioner_widths : forall th f s g g' n,
   exec_ns_positioner th f s g = Ok g' -> nW g' n = nW g n.
 Proof.
   intros th f s g g' n H. rewrite exec_ns_positioner_eq in H.
-  destruct (phase2 NetworkSimplex (ns_params th g) (aux_graph f s g)) as [a|e]; cbn [bind] in H; [|discriminate].
+  destruct (assign_layers NetworkSimplex (ns_params th g) (aux_graph f s g)) as [a|e]; cbn [bind] in H; [|discriminate].
   inversion H; subst g'. rewrite (xonly_nW _ _ (ns_finish_xonly g a)). reflexivity.
 Qed.
 
@@ -715,13 +714,13 @@ Theorem ns_positioner_x_lb : forall th f s g g',
   exec_ns_positioner th f s g = Ok g' -> layers_wf g -> NoDup (g_N g) ->
   (forall n, in_layers g n -> In n (g_N g)) ->
   exists a lb,
-    phase2 NetworkSimplex (ns_params th g) (aux_graph f s g) = Ok a /\
+    assign_layers NetworkSimplex (ns_params th g) (aux_graph f s g) = Ok a /\
     (forall n, in_layers g n -> nX g' n = inQ (layer_of a (ns_idx g n)) - nW g n / 2 - lb) /\
     (forall n, in_layers g n -> lb <= inQ (layer_of a (ns_idx g n)) - nW g n / 2) /\
     ((exists n, in_layers g n) -> exists n, in_layers g n /\ lb = inQ (layer_of a (ns_idx g n)) - nW g n / 2).
 Proof.
   intros th f s g g' H Hwf HND HN. rewrite exec_ns_positioner_eq in H.
-  destruct (phase2 NetworkSimplex (ns_params th g) (aux_graph f s g)) as [a|e]; cbn [bind] in H; [|discriminate].
+  destruct (assign_layers NetworkSimplex (ns_params th g) (aux_graph f s g)) as [a|e]; cbn [bind] in H; [|discriminate].
   inversion H; subst g'. clear H. exists a.
   unfold ns_finish. destruct (ns_xs g) as [|n0 t] eqn:E.
   - exists 0. split; [reflexivity|].
@@ -847,7 +846,7 @@ Proof. split; [apply aux_graph_ns_wf | apply aux_graph_acyclic]; try exact sx_ns
 
 (* the feasibility that SinkColoringProofs.v checked by evaluation now follows from the theorem *)
 Example sx_ns_feasible_thm : forall a,
-  phase2 NetworkSimplex (ns_params 1 sx_g) (aux_graph 1 5 sx_g) = Ok a -> ns_feasible 5 sx_g a.
+  assign_layers NetworkSimplex (ns_params 1 sx_g) (aux_graph 1 5 sx_g) = Ok a -> ns_feasible 5 sx_g a.
 Proof. intros a H. exact (aux_phase2_feasible 1 1 5 sx_g a sx_nsp_wf H). Qed.
 
 Example sx_ns_no_overlap_unconditional : forall g',
@@ -899,7 +898,7 @@ Local Open Scope nat_scope.
 Lemma ns_positioner_pos_frame : forall th f s g g1, exec_ns_positioner th f s g = Ok g1 -> pos_frame g g1.
 Proof.
   intros th f s g g1 H. rewrite exec_ns_positioner_eq in H.
-  destruct (phase2 NetworkSimplex (SinkColoringProofs.ns_params th g) (aux_graph f s g)) as [a|e]; cbn [bind] in H; [|discriminate].
+  destruct (assign_layers NetworkSimplex (SinkColoringProofs.ns_params th g) (aux_graph f s g)) as [a|e]; cbn [bind] in H; [|discriminate].
   inversion H; subst g1. clear H.
   destruct (ns_finish_xonly g a) as (X1 & X2 & X3 & X4 & X5 & X6).
   set (F := fun l => set_layer_h (layer_height g (l_nodes l) (l_h l)) l) in *.
